@@ -80,10 +80,18 @@ pub fn filter_by_git_diff(
         git_diff.get_changed_files_range(&range.base, &range.target)?
     };
 
-    // Canonicalize paths for comparison
+    // Canonicalize paths for comparison. A path that resolves to another location is, or
+    // lies behind, a symbolic link: it is not the regular file git tracks under that name,
+    // and following it would report the link's target instead.
+    let workdir = git_diff.workdir();
+    let workdir_canonical = workdir.canonicalize().ok();
     let changed_canonical: HashSet<_> = changed_files
         .iter()
-        .filter_map(|p| p.canonicalize().ok())
+        .filter_map(|p| {
+            let canonical = p.canonicalize().ok()?;
+            let relative = p.strip_prefix(workdir).ok()?;
+            (canonical == workdir_canonical.as_ref()?.join(relative)).then_some(canonical)
+        })
         .collect();
 
     // Filter to only include changed files
